@@ -12,7 +12,7 @@ from simkit.pipe import open_frontend
 
 ID = "C15"
 LEVEL = "exploration"
-RUNS = {"quick": 8000, "thorough": 250000}
+RUNS = {"quick": 32000, "thorough": 600000}
 RULE = ("(parse) the same valid RDF 1.1 bytes (real writer or reference encoder, all physical types) are handed to "
         "the three generic and three rdflib parse entry points, each through its own front end and read schedule; "
         "(write) corresponding generic and rdflib inputs are serialized with the same options by both integrations "
